@@ -149,6 +149,95 @@ class IterRule(sym.Rule):
             self.reports[dk] = Report('R15.1', True, None, sample={'function': base_name(f.pretty), 'config': self.cfg.name})
 
 
+class FwdRule(sym.Rule):
+    """R15.3: a multi-pass range is not walked past `last`.  Advancing a caller's forward /
+    random-access iterator by k (through std::advance / next / copy_n-style helpers that take the
+    iterator and a count) needs evidence on the path: for k == 1 a comparison of that position
+    with the end that said "not equal"; for a symbolic k a condition k < L or k <= L with L a
+    measured length (the result of a call on the caller's iterators)."""
+    name = 'R15.3'
+
+    def __init__(self, eng, cfg):
+        self.orc = eng.oracle
+        self.cfg = cfg
+        self.reports = {}
+        self.public = False
+        self.advances = 0
+
+    def init(self, f, eng):
+        # (not-at-end positions: frozenset of iterator object keys; pending comparisons; copies: (dst, src); compared-any)
+        return (frozenset(), frozenset(), frozenset(), False)
+
+    def on_event(self, rs, ev, st, f, eng):
+        notend, pending, copies, tested = rs
+        if ev.kind == 'branch' and pending:
+            pos, pol = sym.strip_not(ev.cond)
+            a = single_atom(pos)
+            for (r, kind, x, y) in pending:
+                if a is not None and a == r:
+                    taken = ev.taken if pol else (not ev.taken)
+                    ne = (kind == 'ITER_EQ' and taken is False) or (kind == 'ITER_NE' and taken is True)
+                    if ne:
+                        notend = notend | {x, y}
+                    return (notend, pending - {(r, kind, x, y)}, copies, True)
+            return rs
+        if ev.kind not in ('call', 'throw') or not ev.callee or not ev.args:
+            return rs
+        kind = self.orc.kind.get(ev.callee)
+        pretty = self.orc.pretty.get(ev.callee, '')
+        multi = 'svp::FwIt<' in pretty or 'svp::RaIt<' in pretty
+        if not multi:
+            return rs
+        if kind in ('ITER_EQ', 'ITER_NE') and ev.kind == 'call' and ev.ret is not None:
+            return (notend, pending | {(single_atom(ev.ret), kind, ev.args[0], ev.args[1])}, copies, tested)
+        if kind == 'ITER_COPY' and len(ev.args) >= 2:
+            src = ev.args[1]
+            if src in notend:
+                notend = notend | {ev.args[0]}
+            return (notend, pending, copies | {(ev.args[0], src)}, tested)
+        eff = self.orc.effects.get(ev.callee, frozenset())
+        if kind is None and (eff & {'ITER_INC', 'ITER_ARITH', 'ITER_POSTINC'}) and ev.kind == 'call':
+            tys = ev.argtys or []
+            its = [a for i, a in enumerate(ev.args) if i < len(tys) and tys[i] and ('svp::FwIt' in tys[i] or 'svp::RaIt' in tys[i])]
+            ints = [a for i, a in enumerate(ev.args) if i < len(tys) and tys[i] and tys[i].strip() in ('i64', 'i32', 'i16', 'i8')]
+            # advance-style helpers: exactly one iterator and one count
+            if len(its) == 1 and len(ints) == 1 and ' std::distance<' not in ' ' + pretty:
+                self.advances += 1
+                k = ints[0]
+                it = its[0]
+                ok = None
+                if const_of(k) == 1:
+                    ok = it in notend
+                elif const_of(k) == 0:
+                    ok = True
+                else:
+                    from .ir_bounds import cmp_atom
+                    for (c, v) in st.conds:
+                        a = cmp_atom(c)
+                        if a is None:
+                            continue
+                        if a[1] in ('ult', 'ule') and v is True and a[2] == k and any(x[0] == 'ret' for x in sym.atoms_of(a[3])):
+                            ok = True
+                        if a[1] in ('ult',) and v is False and a[3] == k and any(x[0] == 'ret' for x in sym.atoms_of(a[2])):
+                            ok = True
+                    if ok is None:
+                        ok = False
+                bn = base_name(f.pretty)
+                dk = (f.name, ev.ins.line if ev.ins is not None else 0, ok)
+                if ok:
+                    if dk not in self.reports:
+                        self.reports[dk] = Report('R15.3', True, None, sample={'function': bn, 'advance_by': repr(k)[:60], 'config': self.cfg.name})
+                elif self.public or tested:
+                    if dk not in self.reports:
+                        self.reports[dk] = Report(
+                            'R15.3', False, {'function': bn, 'defect': 'multi-pass iterator advanced without evidence that it stays within the range'},
+                            'R15.3: %s advances a caller-supplied forward iterator by %s (at %s) on a path with no comparison against '
+                            'the end / no bound by the measured length: an empty or shorter range is walked past `last` (%s)'
+                            % (bn, 'one' if const_of(k) == 1 else 'a count', where(ev, self.orc), self.cfg.name),
+                            {'function': f.pretty[:300], 'config': self.cfg.name, 'file': 'source/include/gch/small_vector.hpp'})
+        return (notend, pending, copies, tested)
+
+
 def generator_loops(eng, cfg):
     """R15.2, structural: in every function that calls the generator directly."""
     orc = eng.oracle
@@ -260,4 +349,19 @@ def analyse_tu(eng, cfg):
                 reports.append(Report('R15.2', False, {'function': bn, 'defect': 'loop bound is not begin + count'},
                                       'R15.2: %s: the generator loop is not bounded by begin + count (%s)' % (bn, cfg.name),
                                       {'function': f.pretty[:300], 'config': cfg.name}))
-    return {'reports': reports, 'functions': n, 'iterator_events': rule.events, 'generator_functions': ng}
+    fr = FwdRule(eng, cfg)
+    nf = 0
+    for f in irrules.gch_roots(eng):
+        p = f.pretty or ''
+        if 'svp::FwIt<' not in p and 'svp::RaIt<' not in p:
+            continue
+        eff = orc.effects.get(f.name, frozenset())
+        if not (eff & {'ITER_INC', 'ITER_ARITH'}):
+            continue
+        head = p.split('(')[0]
+        fr.public = 'gch::small_vector<' in head and 'detail::' not in head
+        nf += 1
+        eng.walk(f, [fr])
+    reports += list(fr.reports.values())
+    return {'reports': reports, 'functions': n, 'iterator_events': rule.events, 'generator_functions': ng,
+            'multipass_functions': nf, 'advances': fr.advances}
